@@ -8,7 +8,7 @@ CONSTANTS
   XHosts = {"name", "ip"}
   XStores = {"system", "withCA"}
   XResps = {"success", "refuse", "garbage", "close", "hangup", "wrongid", "stall"}
-  XRcs = {1, 2, 10, 14, 52, 53}
+  XRcs = {1, 2, 10, 14, 52, 53, 1000000}
   XInjs = {"none", "before", "with", "after"}
   XHss = {"trusted", "untrusted", "wrongName", "stall", "close", "garbage"}
   XFaultHss = {"trusted", "untrusted", "wrongName", "stall", "close", "garbage"}
